@@ -51,7 +51,7 @@ fn kind_of(w: u32) -> &'static str {
   match (w / 4) % 4 { 0 | 1 => "f64", 2 => ["u8", "i32"][(w % 2) as usize], _ => ALLK[(w / 16) as usize % 14] }
 }
 fn is_unsigned(k: &str) -> bool { k.starts_with('u') }
-pub const STRS: [&str; 8] = ["hello", "a b", "", "héllo wörld", "日本", "😀 ok", "q\"uote", "tab\there"];
+pub const STRS: [&str; 8] = ["hello", "a b", "", "héllo wörld", "日本", "😀 ok", "q\\\"uote", "tab\\there"];
 
 fn mat_lit(kind: &str, r: usize, c: usize, s: &mut Src) -> String {
   let mut rows = vec![];
